@@ -191,6 +191,18 @@ func c19Batch(rep *vk.Report, b int, fam string, srv *c18Server) {
 					cs.Steps[k].Mode = ""
 				}
 			}
+			if r.IntN(3) == 0 {
+				// body-less answers (204, or a retried 503 without body): nothing for the caller to read, yet the attempt's
+				// resources must be released all the same
+				for k := range cs.Steps {
+					if r.IntN(2) == 0 {
+						cs.Steps[k].Mode = "nobody"
+						if cs.Steps[k].Status == 200 {
+							cs.Steps[k].Status = 204
+						}
+					}
+				}
+			}
 			if r.IntN(4) == 0 {
 				// a firing hedge around the retry policy: the slow primary attempt is overtaken by a hedge branch that has a
 				// response retried inside it and then wins
@@ -209,6 +221,9 @@ func c19Batch(rep *vk.Report, b int, fam string, srv *c18Server) {
 				// a long-lived caller context: it stays alive until after the leak check
 				c, cancel := context.WithCancel(context.WithValue(context.Background(), c18CtxKey("req"), "v"))
 				reqCtx = c
+				if i%2 == 0 {
+					reqCtx = customCtx{c} // an application-defined context type: derived contexts watch it with a goroutine
+				}
 				mu.Lock()
 				keep = append(keep, cancel)
 				mu.Unlock()
@@ -265,8 +280,21 @@ func c19Batch(rep *vk.Report, b int, fam string, srv *c18Server) {
 			time.Sleep(5 * time.Millisecond)
 		}
 		mergers := libraryGoroutines()
+		// contexts derived by the adapter from an application-defined caller context are watched by a goroutine of the
+		// context package until they are released; none may be left once every body is closed
+		watchers := 0
+		for w := 0; w < 500; w++ {
+			if watchers = countGoroutinesWith("context.(*cancelCtx).propagateCancel"); watchers == 0 {
+				break
+			}
+			time.Sleep(2 * time.Millisecond)
+		}
 		for _, c := range keep {
 			c()
+		}
+		if watchers > 0 {
+			rep.Violate(b, "C19/attempt-context-never-released", fmt.Sprintf("after every returned body was closed, %d contexts derived for attempts are still being watched (goroutines in context.propagateCancel) while the callers' contexts are alive", watchers), map[string]any{"family": fam, "batch": b})
+			return
 		}
 		if left > 0 {
 			sig := "http-connection-left-open"
@@ -348,3 +376,6 @@ func asExceeded(err error, xe *retrypolicy.ExceededError) bool {
 }
 
 var _ = timeout.ErrExceeded
+
+// customCtx is an application-defined context type (delegating to a standard one).
+type customCtx struct{ context.Context }
